@@ -48,6 +48,77 @@ def c01(rep, tier, seed):
     ]
 
 
+def all_conc_specs(tier):
+    """every concurrent specification that carries ownership ghost state and a MemModel instance"""
+    return [spec_unique(tier)]
+
+
+@check("C03")
+def c03(rep, tier, seed):
+    """everything released exactly once: ownership invariants of every concurrent spec + accounting on the code"""
+    for spec in all_conc_specs(tier):
+        run_conc(rep, spec, tier, seed, {"C03"})
+    rep.assumptions += ["ownership is observed through instrumented payload/functor types and the model's ghost state"]
+
+
+@check("C04")
+def c04(rep, tier, seed):
+    """no data races: MemModel (C++20 happens-before) driven by the memory orders the code passes"""
+    for spec in all_conc_specs(tier):
+        run_conc(rep, spec, tier, seed, {"C04"})
+    rep.assumptions += ["plain accesses are transcribed from the code by hand; atomic operations and their memory orders "
+                        "are recorded from the running code", "SC exploration + vector clocks (races of SC executions)"]
+
+
+# ------------------------------------------------------------------------------------------------ program enumeration
+
+from . import seq  # noqa: E402
+
+
+def _inner_task_key(prog):
+    kinds = sorted({s["beh"] for s in prog["steps"] if s["beh"].startswith("task_")})
+    return "crash/inner-task/" + "+".join(kinds) if kinds else "crash/pipeline/src=%s" % prog["src"]
+
+
+@check("C02")
+def c02(rep, tier, seed):
+    """pipeline semantics: routing, recovery, unwrapping (Pipeline.tla reference interpreter, all programs)"""
+    cfgs = [("Pipeline_C02_quick.cfg", "all programs of length <= 2 over every source, signature class and behaviour")]
+    if tier == "thorough":
+        cfgs.append(("Pipeline_C02_thorough.cfg", "programs of length <= 3 over a reduced behaviour alphabet"))
+    seq.check_pipeline(rep, cfgs, {"C02", "C12"}, tier, crash_key=_inner_task_key)
+    rep.assumptions += ["value type int, error type StopError; behaviours are the finite alphabet of Pipeline.tla"]
+
+
+@check("C05")
+def c05(rep, tier, seed):
+    """executors: Called xor Dropped, steps run where told, StopError on rejection (Pipeline.tla x rejection points)"""
+    cfgs = [("Pipeline_C05_quick.cfg", "programs of length <= 2 x per-step executor choice x rejection point k in {0,1,never}")]
+    if tier == "thorough":
+        cfgs.append(("Pipeline_C05_thorough.cfg", "programs of length <= 3 x rejection point k in {0,1,2,never}"))
+    seq.check_pipeline(rep, cfgs, {"C05"}, tier, crash_key=_inner_task_key)
+    rep.assumptions += ["instrumented inline executors decide Call/Drop; concurrent Stop/Submit interleavings are covered "
+                        "by the Strand and FairThreadPool specifications"]
+
+
+@check("C12")
+def c12(rep, tier, seed):
+    """Task: nothing before start, then like the eager twin; cancel runs no value callback (Pipeline.tla lazy mode)"""
+    cfgs = [("Pipeline_C12_quick.cfg", "lazy programs of length <= 2 x 6 ways of starting / abandoning")]
+    if tier == "thorough":
+        cfgs.append(("Pipeline_C12_thorough.cfg", "lazy programs of length <= 3"))
+    seq.check_pipeline(rep, cfgs, {"C12", "C02"}, tier, crash_key=_inner_task_key)
+
+
+@check("C20")
+def c20(rep, tier, seed):
+    """allocations: one per step (Pipeline.tla cost annotation); combinators and waits: constants"""
+    cfgs = [("Pipeline_C20_quick.cfg", "programs of length <= 2, operator new counted per program")]
+    if tier == "thorough":
+        cfgs.append(("Pipeline_C20_thorough.cfg", "programs of length <= 3"))
+    seq.check_pipeline(rep, cfgs, {"C20"}, tier, crash_key=_inner_task_key)
+
+
 # ------------------------------------------------------------------------------------------------ setup / replay
 
 def setup():
